@@ -192,6 +192,8 @@ def tags(sc, obs):
                 cells = {(q[0] % H["w"], q[1] % H["h"]) if H["torus"] else tuple(q) for q in ties}
                 yield "branch:mto-closest-" + ("unique" if len(ties) == 1 else "tie-one-cell-offered-twice" if len(cells) == 1 else
                                                "tie-2-cells" if len(cells) == 2 else "tie-3+-cells")
+        if e["op"][0] == "mte" and len(L.split_script(e["op"])[0]) == 3:
+            yield "branch:mte-empties-set-reordered"
         if e["op"][0] == "mte" and e["res"] == "ok":
             _, script = L.split_script(e["op"])
             B = L.trace_before(tr, i)
